@@ -280,7 +280,7 @@ func checkOutlines(b *harness.B, c *chaingen.Chain, cs consensus.State, blk type
 		}
 		return blk.V2.Transactions[i-n1].MerkleLeafHash()
 	}
-	// identical transactions inside one block would make hashes ambiguous; not produced by the generator
+	// identical transactions inside one block (valid for attestation-only transactions) come from run()'s directed block
 	masks := []uint64{}
 	if n <= 10 {
 		for m := uint64(0); m < 1<<n; m++ {
@@ -304,6 +304,19 @@ func checkOutlines(b *harness.B, c *chaingen.Chain, cs consensus.State, blk type
 					om1 = append(om1, blk.Transactions[i])
 				} else {
 					om2 = append(om2, blk.V2.Transactions[i-n1])
+				}
+			}
+		}
+		// transactions are omitted by hash: a copy of an omitted transaction elsewhere in the block goes with it
+		if len(omitted) > 0 && len(omitted) < n {
+			gone := map[types.Hash256]bool{}
+			for _, i := range omitted {
+				gone[hashOf(i)] = true
+			}
+			omitted = omitted[:0]
+			for i := 0; i < n; i++ {
+				if gone[hashOf(i)] {
+					omitted = append(omitted, i)
 				}
 			}
 		}
@@ -365,6 +378,13 @@ func checkOutlines(b *harness.B, c *chaingen.Chain, cs consensus.State, blk type
 		if len(omitted) > 0 {
 			ob3 := gateway.OutlineBlock(chaingen.CloneBlock(blk), om1, om2)
 			w := omitted[rng.IntN(len(omitted))]
+			twin := false
+			for _, i := range omitted {
+				twin = twin || (i != w && hashOf(i) == hashOf(w))
+			}
+			if twin {
+				continue // an identical transaction stays in the pool: withholding one copy withholds nothing
+			}
 			var p1 []types.Transaction
 			var p2 []types.V2Transaction
 			for _, i := range omitted {
@@ -443,6 +463,19 @@ func run(b *harness.B) {
 			}
 			// (2) outlines
 			checkOutlines(b, c, cs, blk, r2)
+			// (2b) a block that carries the same transaction twice (an attestation-only transaction consumes nothing and
+			// is valid any number of times): every outline of it completes to it as well
+			if cs.Index.Height%8 == 0 {
+				key := c.W.Keys[1]
+				a := types.Attestation{PublicKey: key.PublicKey(), Key: "relay", Value: []byte{byte(cs.Index.Height)}}
+				a.Signature = key.SignHash(cs.AttestationSigHash(a))
+				t := types.V2Transaction{Attestations: []types.Attestation{a}}
+				other := types.V2Transaction{ArbitraryData: []byte("between the twins")}
+				if dup, dbs, err := c.BlockWith(nil, []types.V2Transaction{chaingen.CloneV2(t), other, chaingen.CloneV2(t)}); err == nil && consensus.ValidateBlock(cs, dup, dbs) == nil {
+					b.Count("outline_blocks_with_a_repeated_transaction", 1)
+					checkOutlines(b, c, cs, dup, r2)
+				}
+			}
 		}
 		for done := 0; done < blocks; {
 			done += c.Grow(1+rng.IntN(10), chaingen.Plan{MaxTxns: b.Pick(7, 9)})
